@@ -50,7 +50,7 @@ TOKEN_RE = re.compile(r"""
   | (?P<str>b?"(?:[^"\\]|\\.)*")
   | (?P<chr>b?'(?:[^'\\]|\\.)')
   | (?P<life>'[A-Za-z_][A-Za-z0-9_]*)
-  | (?P<num>[0-9][0-9_]*(?:[iu](?:8|16|32|64|128|size))?)
+  | (?P<num>0x[0-9a-fA-F_]+|[0-9][0-9_]*(?:[iu](?:8|16|32|64|128|size))?)
   | (?P<id>[A-Za-z_][A-Za-z0-9_]*)
   | (?P<op>::|->|=>|==|!=|<=|>=|&&|\|\||\+=|-=|\*=|/=|%=|\.\.=|\.\.|<<|>>|[-+*/%=<>!&|^.,;:(){}\[\]#?$@])
 """, re.X | re.S)
@@ -170,6 +170,8 @@ class Parser:
             while not self.at(">"):
                 if self.peek()[0] == "life":
                     self.next()
+                elif self.peek()[0] == "num":
+                    args.append(("constarg", self.number(self.next()[1])))
                 else:
                     args.append(self.ty())
                 if self.at(","):
@@ -177,6 +179,11 @@ class Parser:
             self.expect(">")
         if name in INT_TYPES or name == "bool":
             return (name,)
+        if name == "char":
+            return ("char",)
+        consts = [a[1] for a in args if a[0] == "constarg"]
+        if consts and name not in ("Result", "Option"):
+            return ("named", "%s_%d" % (name, consts[0]))
         if name == "Result" and args:
             return ("result", args[0], args[1] if len(args) > 1 else ("named", "TzError"))
         if name == "Option" and args:
@@ -215,7 +222,15 @@ class Parser:
                 sub = self.pat()
                 self.expect("]")
                 return ("pslice_last", sub)
-            raise TransError("slice pattern")
+            ps = []
+            while not self.at("]"):
+                if self.at(".."):
+                    raise TransError("slice pattern with a rest in the middle")
+                ps.append(self.pat())
+                if self.at(","):
+                    self.next()
+            self.expect("]")
+            return ("parray", ps)
         if self.at("("):
             self.next()
             ps = []
@@ -284,6 +299,8 @@ class Parser:
 
     @staticmethod
     def number(text):
+        if text.startswith("0x"):
+            return int(text[2:].replace("_", ""), 16)
         m = re.match(r"([0-9_]+)", text)
         return int(m.group(1).replace("_", ""))
 
@@ -343,8 +360,21 @@ class Parser:
                     e = ("tfield", e, int(tok[1]))
                     continue
                 name = tok[1]
+                targs = []
+                if self.at("::") and self.at("<", 1):
+                    self.next()
+                    self.next()
+                    while not self.at(">"):
+                        if self.peek()[0] == "num":
+                            targs.append(("lit", self.number(self.next()[1])))
+                        else:
+                            tt = self.ty()
+                            targs.append(("path", [tt[1]]) if tt[0] == "named" else ("tyarg", tt))
+                        if self.at(","):
+                            self.next()
+                    self.expect(">")
                 if self.at("("):
-                    e = ("mcall", e, name, self.args())
+                    e = ("mcall", e, name, self.args()) if not targs else ("mcall", e, name, targs + self.args())
                 else:
                     e = ("field", e, name)
             elif self.at("["):
@@ -357,8 +387,9 @@ class Parser:
                     if self.at(".."):
                         self.next()
                         if not self.at("]"):
-                            raise TransError("bounded slice range")
-                        i = ("rangefrom", i)
+                            i = ("rangefromto", i, self.expr())
+                        else:
+                            i = ("rangefrom", i)
                 self.expect("]")
                 e = ("index", e, i)
             elif self.at("("):
@@ -481,9 +512,26 @@ class Parser:
             return ("tyconst", t, self.ident())
         if tok[0] == "id":
             path = [self.ident()]
+            targs = None
             while self.at("::"):
                 self.next()
+                if self.at("<"):
+                    # turbofish: f::<4>(…)
+                    self.next()
+                    targs = []
+                    while not self.at(">"):
+                        if self.peek()[0] == "num":
+                            targs.append(("lit", self.number(self.next()[1])))
+                        else:
+                            tt = self.ty()
+                            targs.append(("path", [tt[1]]) if tt[0] == "named" else ("tyarg", tt))
+                        if self.at(","):
+                            self.next()
+                    self.expect(">")
+                    break
                 path.append(self.ident())
+            if targs is not None:
+                return ("tpath", path, targs)
             if self.at("!"):
                 # macro invocation
                 self.next()
@@ -493,6 +541,13 @@ class Parser:
                 start = self.i + 1
                 self.skip_group(o, c)
                 inner = self.t[start:self.i - 1]
+                if name == "matches":
+                    # matches!(expr, pat | pat): a match to bool
+                    pp = Parser(inner, self.macros)
+                    scr = pp.expr()
+                    pp.expect(",")
+                    pt = pp.pat()
+                    return ("match", scr, [(pt, None, ("bool", True)), (("pwild",), None, ("bool", False))])
                 if name == "write":
                     # write!(target, "format string with inline {name} / {name:0W} arguments")
                     if len(inner) != 3 or inner[0][0] != "id" or inner[1] != ("op", ",") or inner[2][0] != "str":
@@ -689,6 +744,7 @@ def parse_file(path):
     macros = {}
     funcs = {}
     fn_generics = {}
+    impl_consts = {}
     p = Parser(toks, macros)
 
     def parse_macro_rules():
@@ -812,6 +868,10 @@ def parse_file(path):
             body = p.block()
             funcs[(prefix + "." if prefix else "") + name] = (params, ret, body)
             fn_generics[(prefix + "." if prefix else "") + name] = [g for g, k in generics.items() if k[0] == "type"]
+            cgs = [g for g, k in generics.items() if k[0] == "const"]
+            if cgs:
+                fq = (prefix + "." if prefix else "") + name
+                funcs[fq] = ([(c, ("usize",)) for c in cgs] + list(params), ret, body)
         except TransError as e:
             # not every function of the file is in the subset; only listed ones must parse
             funcs[(prefix + "." if prefix else "") + name] = ("ERROR", str(e), None)
@@ -835,16 +895,28 @@ def parse_file(path):
                 parse_macro_rules()
             elif p.at("impl"):
                 p.next()
+                iconsts = []
                 if p.at("<"):
+                    st = p.i
                     p.skip_group("<", ">")
+                    toks2 = p.t[st:p.i]
+                    for j in range(len(toks2) - 1):
+                        if toks2[j] == ("id", "const") and toks2[j + 1][0] == "id":
+                            iconsts.append(toks2[j + 1][1])
                 t = p.ty()
                 if p.at("for"):
                     p.next()
                     t = p.ty()
                 name = t[1] if t[0] == "named" else "?"
+                if p.at("where"):
+                    while not p.at("{"):
+                        p.next()
                 p.expect("{")
+                before = set(funcs)
                 parse_items(name, True)
                 p.expect("}")
+                for q in set(funcs) - before:
+                    impl_consts[q] = iconsts
             elif p.at("mod") and p.peek(2)[1] == "{":
                 p.next()
                 p.ident()
@@ -873,6 +945,11 @@ def parse_file(path):
     for q, g in fn_generics.items():
         if q in funcs and funcs[q][0] != "ERROR":
             funcs[q] = funcs[q] + (g,)
+    for q, cs in impl_consts.items():
+        if cs and q in funcs and funcs[q][0] != "ERROR":
+            # const generic parameters of the impl block: explicit leading parameters of every method
+            params = [(c, ("usize",)) for c in cs] + list(funcs[q][0])
+            funcs[q] = (params,) + tuple(funcs[q][1:])
     return funcs, macros
 
 
@@ -953,6 +1030,14 @@ EXTERN_METHODS = {
 
 # functions that are not translated but given a meaning directly (trusted; DESIGN §13)
 EXTERN_FNS = {
+    # big-endian integers (modelled as in the model: DESIGN trusted base)
+    "u32.from_be_bytes": ("TzVerif.Src.be_unsigned", [("bytesN", 4)], ("u32",)),
+    "i32.from_be_bytes": ("TzVerif.Src.be_signed", [("bytesN", 4)], ("i32",)),
+    "i64.from_be_bytes": ("TzVerif.Src.be_signed", [("bytesN", 8)], ("i64",)),
+    # the footer of version-2/3 files: str::from_utf8, trim, then the (translated) TZ-string parser — the str
+    # plumbing is not in the subset; given the meaning of the model function over the translated parser
+    "parse_footer": ("TzVerif.Model.parseFooter", [("slice", ("u8",)), ("bool",)],
+                     ("result", ("option", ("named", "TransitionRule")), ("named", "TzError"))),
     # the constructor of local time types (its byte loop `TzAsciiStr::new` is not in the subset): the model function
     "LocalTimeType.new": ("TzVerif.Model.LocalTimeType.new", [("i32",), ("bool",), ("option", ("slice", ("u8",)))],
                           ("result", ("named", "LocalTimeType"), ("named", "LocalTimeTypeError"))),
@@ -966,6 +1051,35 @@ FROM_CONV = {
     ("ParseDataError", "TzStringError"): "TzVerif.Model.TzStringError.parseData",
     ("ParseDataError", "TzFileError"): "TzVerif.Model.TzFileError.parseData",
 }
+
+
+STRUCTS.update({
+    "Header": {"version": ("version", "Version"), "ut_local_count": ("utLocalCount", "usize"), "std_wall_count": ("stdWallCount", "usize"),
+               "leap_count": ("leapCount", "usize"), "transition_count": ("transitionCount", "usize"), "type_count": ("typeCount", "usize"),
+               "char_count": ("charCount", "usize")},
+    "DataBlocks": {k: (v, ("slice", ("u8",))) for k, v in [("transition_times", "transitionTimes"), ("transition_types", "transitionTypes"),
+                   ("local_time_types", "localTimeTypes"), ("time_zone_designations", "timeZoneDesignations"), ("leap_seconds", "leapSeconds"),
+                   ("std_walls", "stdWalls"), ("ut_locals", "utLocals")]},
+})
+STRUCTS["DataBlocks_4"] = STRUCTS["DataBlocks"]
+STRUCTS["DataBlocks_8"] = STRUCTS["DataBlocks"]
+SRC_STRUCTS.update({"Header", "DataBlocks", "Version"})
+LEAN_TYPE_NAME.update({"DataBlocks_4": "TzVerif.Src.DataBlocks", "DataBlocks_8": "TzVerif.Src.DataBlocks", "TimeZone": "TzVerif.Model.TimeZone"})
+# enums without payloads that exist only in the translation
+UNIT_ENUMS = {"Version": "TzVerif.Src.Version"}
+# trait methods implemented per const-generic instance: dispatch on the const parameter in scope
+TRAIT_DISPATCH = {("DataBlocks", "parse_time"): ("TIME_SIZE", [(4, "DataBlocks_4.parse_time"), (8, "DataBlocks_8.parse_time")])}
+# calls given the meaning of another translated function (owned constructor = borrowed constructor, C13)
+CALL_ALIASES = {"TimeZone.new": "TimeZoneRef.new"}
+
+
+def elem_type(t):
+    """element type of a slice; elements of byte slices are Lean `Nat`s (tag `byte`)"""
+    t = strip_ref(t) if t else None
+    if not t or t[0] != "slice":
+        return None
+    e = strip_ref(t[1]) if t[1] else None
+    return ("byte",) if e == ("u8",) else e
 
 
 def field_type(ft):
@@ -996,6 +1110,12 @@ def lean_ty(t):
         return "Bool"
     if k == "char":
         return "Char"
+    if k == "byte":
+        return "Nat"
+    if k == "bytesN":
+        return "List Nat"
+    if k == "array":
+        return lean_ty(("slice", t[1]))
     if k == "unit":
         return "Unit"
     if k == "ref":
@@ -1025,6 +1145,8 @@ def lean_ty(t):
             return "Int"
         if t[1] in TYPE_ALIASES:
             return lean_ty(TYPE_ALIASES[t[1]])
+        if t[1] in UNIT_ENUMS:
+            return UNIT_ENUMS[t[1]]
         if len(t[1]) == 1 and t[1].isupper():
             return t[1]             # a type parameter
         return struct_lean(t[1])
@@ -1035,7 +1157,7 @@ def paren(s):
     return s if re.match(r"^[A-Za-z0-9_.']+$", s) else "(" + s + ")"
 
 
-TYPE_ALIASES = {"Cursor": ("slice", ("u8",))}
+TYPE_ALIASES = {"Cursor": ("slice", ("u8",)), "TimeData": ("slice", ("u8",))}
 
 
 def strip_ref(t):
@@ -1055,6 +1177,7 @@ class Normaliser:
     def __init__(self, out_param):
         self.out = out_param
         self.n = 0
+        self.vecs = set()
 
     def fresh(self):
         self.n += 1
@@ -1088,6 +1211,8 @@ class Normaliser:
         if k == "let":
             if st[3] is None:
                 return [st]
+            if st[1][0] == "pvar" and st[3][0] == "call" and st[3][1][0] == "path" and st[3][1][1][-2:] in (["Vec", "with_capacity"], ["Vec", "new"]):
+                self.vecs.add(st[1][1])
             lets, init = self.hoist(st[3], top=True)
             return lets + [("let", st[1], st[2], init)]
         if k == "assign":
@@ -1108,7 +1233,7 @@ class Normaliser:
             return lets + [("for", st[1], it2, self.block(body))]
         if k == "expr":
             e = st[1]
-            if e[0] == "mcall" and e[2] == "push" and self.out and e[1] == ("path", [self.out]):
+            if e[0] == "mcall" and e[2] == "push" and e[1][0] == "path" and len(e[1][1]) == 1 and (e[1][1][0] == self.out or e[1][1][0] in self.vecs):
                 lets, v = self.hoist(e[3][0], top=False)
                 return lets + [("assign", e[1], "=", ("pushed", e[1], v))]
             if e[0] == "try" and e[1][0] == "fmtwrite":
@@ -1311,6 +1436,9 @@ class Fn:
                 raise TransError("cast to %r" % (to,))
             if t[0] == "bool":
                 return ("(if %s then 1 else 0)" % s, to)
+            if t[0] == "byte":
+                # a byte (Lean Nat, < 256 by construction of byte slices) widens into every wider integer type
+                return ("(%s : Int)" % s, to)
             if t[0] == "nat":
                 return ("(Src.wrap_%s (%s : Int))" % (to[0], s), to)
             if t[0] == "int":
@@ -1329,6 +1457,11 @@ class Fn:
         if k == "tuple":
             parts = [self.ex(x, env) for x in e[1]]
             return ("(" + ", ".join(p[0] for p in parts) + ")", ("tuple", [p[1] for p in parts]))
+        if k == "index" and e[2][0] == "rangefromto":
+            s, t = self.ex(e[1], env)
+            a, _ = self.ex(e[2][1], env)
+            b, _ = self.ex(e[2][2], env)
+            return ("(List.take (Int.toNat (%s - %s)) (List.drop (Int.toNat %s) %s))" % (b, a, a, s), strip_ref(t) if t else None)
         if k == "index" and e[2][0] == "rangefrom":
             s, t = self.ex(e[1], env)
             i, _ = self.ex(e[2][1], env)
@@ -1337,7 +1470,7 @@ class Fn:
             s, t = self.ex(e[1], env)
             i, _ = self.ex(e[2], env)
             t = strip_ref(t) if t else None
-            el = t[1] if (t and t[0] == "slice") else ("i64",)
+            el = elem_type(t) if (t and t[0] == "slice") else ("i64",)
             return ("(Src.idx %s %s)" % (s, i), el)
         if k == "field":
             s, t = self.ex(e[1], env)
@@ -1367,6 +1500,8 @@ class Fn:
             fs = []
             for f, v in e[2]:
                 s, _ = self.ex(v, env, want=field_type(STRUCTS[name][f][1]))
+                if STRUCTS[name][f][1] == "nat":
+                    s = "(Int.toNat %s)" % s
                 fs.append("%s := %s" % (STRUCTS[name][f][0], s))
             return ("({ %s } : %s)" % (", ".join(fs), struct_lean(name)), ("named", name))
         if k in ("if", "iflet", "match", "block"):
@@ -1519,6 +1654,8 @@ class Fn:
             return ({"Less": "Ordering.lt", "Equal": "Ordering.eq", "Greater": "Ordering.gt"}[last], ("named", "Ordering"))
         if head in ERROR_ENUMS:
             return ("TzVerif.Model.%s.%s" % (head, lower_first(last)), ("named", head))
+        if head in UNIT_ENUMS:
+            return ("%s.%s" % (UNIT_ENUMS[head], lower_first(last)), ("named", head))
         if last in self.tr.consts:
             return ("TzVerif.Gen." + last, self.tr.consts[last])
         raise TransError("path %s" % "::".join(path))
@@ -1547,7 +1684,7 @@ class Fn:
             if ta and ta[0] == "bool":
                 return ("(%s %s %s)" % (a, op, b), ("bool",))
             lop = {"==": "=", "!=": "≠", "<": "<", ">": ">", "<=": "≤", ">=": "≥"}[op]
-            if ta and ta[0] == "named" and ta[1] not in ("Ordering",) and ta[1] not in ERROR_ENUMS:
+            if ta and ta[0] == "named" and ta[1] not in ("Ordering",) and ta[1] not in ERROR_ENUMS and ta[1] not in UNIT_ENUMS:
                 raise TransError("comparison of %r" % (ta,))
             if ta and ta[0] in ("slice", "option") and op in ("==", "!="):
                 return ("(%s %s %s)" % (a, op, b), ("bool",))
@@ -1585,8 +1722,40 @@ class Fn:
             return ("(%s.length : Int)" % s, ("usize",))
         if name == "is_empty":
             return ("%s.isEmpty" % s, ("bool",))
-        if name in ("iter", "copied", "into_iter", "as_slice"):
+        if name in ("iter", "copied", "into_iter", "as_slice", "into"):
             return (s, t)
+        if name == "chunks_exact":
+            return ("(Src.chunks_exact %s %s)" % (a[0], s), ("slice", t))
+        if name == "first_chunk":
+            return ("(Src.first_chunk %s %s)" % (a[0], s), ("option", t))
+        if name == "split_first_chunk":
+            return ("(Src.split_first_chunk %s %s)" % (a[0], s), ("option", ("tuple", [t, t])))
+        if name == "unwrap" and t and t[0] == "option":
+            return ("(Src.unwrap %s)" % s, t[1])
+        if name == "chain" and args and args[0][0] == "call" and args[0][1] == ("path", ["iter", "repeat"]):
+            return ("(Src.Padded.mk %s %s)" % (s, self.ex(args[0][2][0], env)[0]), ("padded", t))
+        if name == "zip" and t and t[0] == "padded":
+            s2, t2 = self.ex(args[0], env)
+            return ("(Src.PaddedZip.mk %s %s)" % (s, s2), ("paddedzip", elem_type(t[1]), elem_type(strip_ref(t2)[1]) if t2 else None))
+        if name == "take" and t and t[0] == "paddedzip":
+            return ("(Src.PaddedZip.take %s %s)" % (a[0], s), ("slice", ("tuple", [t[1], t[2]])))
+        if name == "and_then" and t and t[0] == "option":
+            cl, ct = self.ex(args[0], dict(env, **{args[0][1][0][0][1]: t[1]}) if args[0][0] == "closure" else env)
+            rt = ct[1] if (ct and ct[0] == "closure") else None
+            return ("(Option.bind %s %s)" % (s, cl), rt)
+        if name == "transpose" and t and t[0] == "result":
+            return ("(Src.res_transpose %s)" % s, ("option", ("result", t[1][1] if (t[1] and t[1][0] == "option") else None, t[2])))
+        if name == "transpose" and t and t[0] == "option":
+            return ("(Src.opt_transpose %s)" % s, ("result", ("option", t[1][1] if (t[1] and t[1][0] == "result") else None), t[1][2] if (t[1] and t[1][0] == "result") else None))
+        if t and t[0] == "named" and (t[1], name) in TRAIT_DISPATCH:
+            cname, impls = TRAIT_DISPATCH[(t[1], name)]
+            if cname not in env:
+                raise TransError("trait dispatch without %s in scope" % cname)
+            text = None
+            for cval, q in reversed(impls):
+                call = "(Src.%s %s)" % (q, " ".join([s] + a))
+                text = call if text is None else "(if (decide (%s = %d)) then %s else %s)" % (vname(cname), cval, call, text)
+            return (text, self.tr.sigs[impls[0][1]][1] if impls[0][1] in self.tr.sigs else None)
         if name == "first":
             return ("(List.head? %s)" % s, ("option", t[1] if (t and t[0] == "slice") else None))
         if name == "split_at_checked":
@@ -1600,7 +1769,7 @@ class Fn:
         if name == "zip":
             s2, t2 = self.ex(args[0], env)
             t2 = strip_ref(t2) if t2 else None
-            return ("(List.zip %s %s)" % (s, s2), ("slice", ("tuple", [t[1] if (t and t[0] == "slice") else None, t2[1] if (t2 and t2[0] == "slice") else None])))
+            return ("(List.zip %s %s)" % (s, s2), ("slice", ("tuple", [elem_type(t), elem_type(t2)])))
         if name == "last":
             return ("(List.getLast? %s)" % s, ("option", t[1] if (t and t[0] == "slice") else None))
         if name == "is_none":
@@ -1634,15 +1803,43 @@ class Fn:
         if t and t[0] == "named":
             q = "%s.%s" % (t[1], name)
             if q in self.tr.sigs:
-                return ("(Src.%s %s)" % (self.tr.lean_name(q), " ".join([s] + a)), self.tr.sigs[q][1])
+                pre = []
+                nparams = len(self.tr.sigs[q][0])
+                if nparams == len(a) + 2:
+                    # one leading const-generic parameter of the impl block
+                    if len(t) > 2:
+                        pre = [t[2]]
+                    elif self.tr.sigs[q][0][0][0] in env:
+                        pre = [vname(self.tr.sigs[q][0][0][0])]
+                    else:
+                        raise TransError("const argument of %s not known" % q)
+                return ("(Src.%s %s)" % (self.tr.lean_name(q), " ".join(pre + [s] + a)), self.tr.sigs[q][1])
         raise TransError("method %s on %r in %s" % (name, t, self.qname))
 
     def call(self, e, env, want=None):
         f, args = e[1], e[2]
+        targs = []
+        if f[0] == "tyconst" and f[2] == "try_from" and f[1][0] == "slice":
+            # <[u8; N]>::try_from(slice): Some iff the length is N (the array size is not kept by the parser: the
+            # only use is on exact chunks, followed by unwrap)
+            return ("(some %s)" % self.ex(args[0], env)[0], ("option", ("slice", ("u8",))))
+        if f[0] == "tpath":
+            targs = f[2]
+            f = ("path", f[1])
+            args = list(targs) + list(args)
         if f[0] != "path":
             raise TransError("call of a non-path")
         path = f[1]
         name = path[-1]
+        if path == ["iter", "repeat"]:
+            return ("(Src.Repeat.mk %s)" % self.ex(args[0], env)[0], ("repeat",))
+        if path[-2:] == ["Vec", "with_capacity"] or path[-2:] == ["Vec", "new"]:
+            return ("[]", ("slice", None))
+        if name == "read_chunk_exact" and len(path) == 1:
+            n = want[1] if (want and want[0] == "bytesN") else None
+            if n is None:
+                raise TransError("read_chunk_exact: array size not inferred in %s" % self.qname)
+            return ("(Src.read_exact %s %d)" % (self.ex(args[0], env)[0], n), ("result", ("tuple", [("slice", ("u8",)), ("slice", ("u8",))]), ("named", "ParseDataError")))
         if len(path) == 1 and name in env and env[name] and env[name][0] == "fnty":
             return ("(%s %s)" % (vname(name), " ".join(self.ex(x, env)[0] for x in args)), env[name][2])
         if name == "parse_int" and len(path) == 1:
@@ -1674,8 +1871,9 @@ class Fn:
             head = path[-2]
             if head == "Self":
                 head = self.owner
-            if head[0].isupper():
+            if head[0].isupper() or "%s.%s" % (head, name) in EXTERN_FNS:
                 q = "%s.%s" % (head, name)
+        q = CALL_ALIASES.get(q, q)
         if q in EXTERN_FNS:
             lean, pts, rt = EXTERN_FNS[q]
             a = [self.ex(x, env, want=pt)[0] for pt, x in zip(pts, args)]
@@ -1686,7 +1884,19 @@ class Fn:
         a = []
         for (pn, pt), x in zip(params, args):
             a.append(self.ex(x, env, want=pt)[0])
+        if targs and ret:
+            ret = self.annotate_const(ret, a[0])
         return ("(Src.%s %s)" % (self.tr.lean_name(q), " ".join(a)) if a else "Src.%s" % self.tr.lean_name(q), ret)
+
+    def annotate_const(self, t, ctext):
+        """DataBlocks<TIME_SIZE> returned by f::<4>(…): remember the const argument for later method calls"""
+        if t[0] == "named" and t[1] in ("DataBlocks",):
+            return ("named", t[1], ctext)
+        if t[0] == "result":
+            return ("result", self.annotate_const(t[1], ctext), t[2])
+        if t[0] == "tuple":
+            return ("tuple", [self.annotate_const(x, ctext) for x in t[1]])
+        return t
 
     # ---- patterns
     def pat(self, p, env, t):
@@ -1728,6 +1938,8 @@ class Fn:
             if len(path) >= 2 and path[-2] in ERROR_ENUMS:
                 s = "TzVerif.Model.%s.%s" % (path[-2], lower_first(name))
                 return s if not subs else "%s %s" % (s, " ".join(paren(self.pat(x, env, None)) for x in subs))
+            if len(path) >= 2 and path[-2] in UNIT_ENUMS:
+                return "%s.%s" % (UNIT_ENUMS[path[-2]], lower_first(name))
             en = None
             if len(path) >= 2:
                 en = path[-2] if path[-2] != "Self" else self.owner
@@ -1810,13 +2022,15 @@ class Fn:
         if node[0] == "call" and node[1][0] == "path" and len(node[1][1]) == 1 and node[1][1][0] in self.sclosures:
             # calling a closure that assigns captured variables assigns them
             acc.extend(self.sclosures[node[1][1][0]])
-        if node[0] == "call" and node[1][0] == "path":
+        if node[0] == "call" and node[1][0] in ("path", "tpath"):
             path = node[1][1]
+            off = len(node[1][2]) if node[1][0] == "tpath" else 0
             q = path[-1]
             if len(path) >= 2 and path[-2][0].isupper():
                 q = "%s.%s" % (path[-2] if path[-2] != "Self" else self.owner, path[-1])
-            for i in self.tr.inout.get(q, []):
-                if i < len(node[2]) and node[2][i][0] == "path" and len(node[2][i][1]) == 1:
+            io = [0] if q == "read_chunk_exact" else [i - off for i in self.tr.inout.get(q, [])]
+            for i in io:
+                if 0 <= i < len(node[2]) and node[2][i][0] == "path" and len(node[2][i][1]) == 1:
                     acc.append(node[2][i][1][0])
         if node[0] == "assign":
             lhs = node[1]
@@ -1887,7 +2101,7 @@ class Fn:
     def mentions_parse_int(e):
         if not isinstance(e, (tuple, list)):
             return False
-        if isinstance(e, tuple) and len(e) >= 3 and e[0] == "call" and e[1] == ("path", ["parse_int"]):
+        if isinstance(e, tuple) and len(e) >= 3 and e[0] == "call" and e[1] in (("path", ["parse_int"]), ("path", ["read_chunk_exact"])):
             return True
         return any(Fn.mentions_parse_int(x) for x in e if isinstance(x, (tuple, list)))
 
@@ -1902,7 +2116,7 @@ class Fn:
             if isinstance(node, tuple) and node and node[0] == "call" and node[1][0] == "path":
                 path = node[1][1]
                 q = path[-1]
-                if len(path) >= 2 and path[-2][0].isupper():
+                if len(path) >= 2 and (path[-2][0].isupper() or "%s.%s" % (path[-2], path[-1]) in EXTERN_FNS):
                     q = "%s.%s" % (path[-2] if path[-2] != "Self" else self.owner, path[-1])
                 sig = None
                 if q in self.tr.sigs:
@@ -1960,16 +2174,19 @@ class Fn:
     def state_vars(self, e, env):
         """the caller's variables that a call passes at the callee's `&mut` positions (through wrappers such as
         `map_err(f(cursor))`), or []"""
-        if e[0] != "call" or e[1][0] != "path":
+        if e[0] != "call" or e[1][0] not in ("path", "tpath"):
             return []
         path = e[1][1]
+        off = len(e[1][2]) if e[1][0] == "tpath" else 0
         q = path[-1]
+        if q == "read_chunk_exact":
+            return [e[2][0][1][0]] if (e[2] and e[2][0][0] == "path") else []
         if len(path) >= 2 and path[-2][0].isupper():
             q = "%s.%s" % (path[-2] if path[-2] != "Self" else self.owner, path[-1])
         if q in self.tr.inout and self.tr.inout[q]:
             names = []
             for i in self.tr.inout[q]:
-                a = e[2][i]
+                a = e[2][i - off]
                 if a[0] != "path" or len(a[1]) != 1:
                     raise TransError("&mut argument that is not a local variable")
                 names.append(a[1][0])
@@ -2046,6 +2263,16 @@ class Fn:
 
     def bind(self, p, t, init, env, cont, ctx, keep_type=False):
         """let p = init; cont"""
+        if p[0] == "parray" and all(x[0] in ("pvar", "pwild") for x in p[1]):
+            # let [a, b, c] = array;  (irrefutable in Rust: components by index)
+            s, ti = self.ex(init, env)
+            env2 = dict(env)
+            lines = ["let __arr := %s" % s]
+            for i, x in enumerate(p[1]):
+                if x[0] == "pvar":
+                    env2[x[1]] = elem_type(ti) or ("byte",)
+                    lines.append("let %s := (Src.idx __arr %d)" % (vname(x[1]), i))
+            return "\n".join(lines) + "\n" + cont(env2)
         if (init[0] == "try" and init[1][0] == "call" and init[1][1][0] == "path" and len(init[1][1][1]) == 1
                 and env.get(init[1][1][1][0]) and env[init[1][1][1][0]][0] == "sclosure"):
             cname = init[1][1][1][0]
@@ -2326,6 +2553,8 @@ class Fn:
     def needs_chain(self, p):
         if p[0] in ("plit", "prange", "pbool"):
             return True
+        if p[0] == "parray":
+            return True
         if p[0] in ("ptuple", "por"):
             return any(self.needs_chain(x) for x in p[1])
         return False
@@ -2337,6 +2566,25 @@ class Fn:
         cs = [self.ex(c, env) for c in comps]
         arms = []
         for p, guard, body in e[2]:
+            if p[0] == "por" and all(x[0] == "ptuple" for x in p[1]) and scrut[0] == "tuple":
+                # (0, 0) | (1, 0) | (1, 1): a disjunction of conjunctions of literal tests
+                alts = []
+                for x in p[1]:
+                    conj = []
+                    for sp, (ctext, ctype) in zip(x[1], cs):
+                        if sp[0] == "plit":
+                            conj.append("(decide (%s = %s))" % (ctext, sp[1]))
+                        elif sp[0] != "pwild":
+                            raise TransError("pattern in an or of tuples")
+                    alts.append("(" + " && ".join(conj) + ")" if conj else "true")
+                cond = "(" + " || ".join(alts) + ")"
+                if guard is not None:
+                    cond = "(%s && %s)" % (cond, self.ex(guard, env)[0])
+                arms.append((cond, body, dict(env)))
+                continue
+            if p[0] == "parray" and all(x[0] == "plit" for x in p[1]) and len(cs) == 1:
+                arms.append(("(decide (%s = [%s]))" % (cs[0][0], ", ".join(str(x[1]) for x in p[1])), body, dict(env)))
+                continue
             ps = p[1] if (p[0] == "ptuple" and scrut[0] == "tuple") else [p]
             if p[0] == "pwild":
                 ps = [("pwild",)] * len(cs)
@@ -2432,15 +2680,15 @@ class Fn:
         for n in self.assigned(body, []):
             if n in env and n not in names:
                 names.append(n)
-        if not names:
-            raise TransError("for loop without state")
         has_ret = self.contains_return(body)
-        st = vname(names[0]) if len(names) == 1 else "(" + ", ".join(vname(n) for n in names) + ")"
+        if not names and not has_ret:
+            return cont(env)            # a loop without effect
+        st = "()" if not names else (vname(names[0]) if len(names) == 1 else "(" + ", ".join(vname(n) for n in names) + ")")
         its, tt = self.ex(it, env)
         tt = strip_ref(tt) if tt else None
         env1 = dict(env)
         self.post = []
-        pt = self.pat(p, env1, tt[1] if tt and tt[0] == "slice" else None)
+        pt = self.pat(p, env1, elem_type(tt) if tt and tt[0] == "slice" else None)
         self.post = []
         if has_ret:
             ctx2 = {"ret": lambda v: "Src.Step.ret %s" % paren(ctx["ret"](v)), "brk": lambda env2: "Src.Step.stop %s" % st}
@@ -2598,9 +2846,16 @@ CONFIG = {
         ("src/parse/utils.rs", {
             "read_exact": {}, "read_tag": {}, "read_optional_tag": {}, "read_while": {}, "read_until": {},
         }),
+        ("src/timezone/mod.rs", {
+            "Transition.new": {}, "LeapSecond.new": {},
+        }),
         ("src/parse/tz_string.rs", {
             "map_err": {}, "parse_time_zone_designation": {}, "parse_hhmmss": {}, "parse_signed_hhmmss": {}, "parse_offset": {},
             "parse_rule_day": {}, "parse_rule_time": {}, "parse_rule_time_extended": {}, "parse_rule_block": {}, "parse_posix_tz": {},
+        }),
+        ("src/parse/tz_file.rs", {
+            "parse_header": {}, "read_data_blocks": {}, "DataBlocks_4.parse_time": {}, "DataBlocks_8.parse_time": {},
+            "DataBlocks.parse": {}, "parse_tz_file": {},
         }),
     ]
 }
@@ -2618,7 +2873,7 @@ def main():
     fails = "".join("-- NOT TRANSLATED %s\n" % str(v).replace("\n", " ") for v in tr.failed.values())
     text = ("-- GENERATED by tools/rs2lean.py from /repo/src on every run. Do not edit.\n"
             "-- One Lean definition per listed Rust function, translated statement by statement.\n" + fails +
-            "import TzVerif.SrcPrelude\nimport TzVerif.Model.TimeZone\n\nset_option linter.unusedVariables false\n\nnamespace TzVerif.Src\nopen TzVerif\n\n" + "\n".join(defs) + "\nend TzVerif.Src\n")
+            "import TzVerif.SrcPrelude\nimport TzVerif.Model.TzFile\n\nset_option linter.unusedVariables false\n\nnamespace TzVerif.Src\nopen TzVerif\n\n" + "\n".join(defs) + "\nend TzVerif.Src\n")
     path = os.path.join(OUT, "Src.lean")
     old = open(path).read() if os.path.exists(path) else None
     if old != text:
